@@ -8,6 +8,10 @@ package main
 // their absence of races; it can only fail on a schedule that breaks the bound.
 
 import (
+	"strings"
+	"encoding/hex"
+	"net"
+	"database/sql"
 	"bufio"
 	"bytes"
 	"context"
@@ -225,6 +229,220 @@ func cmdConcX(args []string) error {
 			}
 			emit(map[string]interface{}{"k": "cx", "scenario": "depth", "backend": backend, "goroutines": k, "sent": k * per, "maxDepth": d, "dropOldest": drop, "accepted": okN, "refused": fullN, "other": otherN, "active": active})
 			done()
+		}
+
+		// ---- (2b) a foreign process holds the write lock of the database file while requests arrive (SQLite rounds): as
+		// `hookaido mcp serve --db` or a backup tool may. A request that cannot write must not be acknowledged: every 202 / 200
+		// stands for messages that are in the file (C01). Both enqueue paths: unlimited queue (autocommit INSERT) and limited
+		// queue (BEGIN IMMEDIATE), ingress fan-out and Admin publish.
+		if backend == "sqlite" {
+			for _, depth := range []int{0, 50} {
+				name := fmt.Sprintf("cx-fl-%d-%d.db", round, depth)
+				path := filepath.Join(dir, name)
+				st, done := newStore(backend, name, func() (queue.Store, error) {
+					return queue.NewSQLiteStore(path, queue.WithSQLiteQueueLimits(depth, "reject"))
+				})
+				if st == nil {
+					continue
+				}
+				_ = st.(*queue.SQLiteStore).VerifSetBusyTimeout(30)
+				compiled, err := compileText("pull_api {\n  auth token raw:t\n}\n/f {\n  deliver \"http://127.0.0.1:9/a\" { timeout 1s }\n  deliver \"http://127.0.0.1:9/b\" { timeout 1s }\n}\n")
+				if err != nil {
+					return err
+				}
+				rt, err := app.VerifNewRuntime(compiled, nil)
+				if err != nil {
+					return err
+				}
+				srv := rt.IngressServer(st)
+				// one request before the lock is taken (must be accepted), then the foreign writer, then requests under the lock
+				pre := httptest.NewRecorder()
+				srv.ServeHTTP(pre, httptest.NewRequest("POST", "http://ex/f", bytes.NewReader([]byte("before"))))
+				raw, err := sql.Open("sqlite", path)
+				if err != nil {
+					done()
+					continue
+				}
+				locked := false
+				if _, err := raw.Exec("PRAGMA busy_timeout=2000;"); err == nil {
+					if _, err := raw.Exec("BEGIN IMMEDIATE;"); err == nil {
+						locked = true
+					}
+				}
+				acked := 0
+				statuses := []int{}
+				for i := 0; i < 3; i++ {
+					rr := httptest.NewRecorder()
+					srv.ServeHTTP(rr, httptest.NewRequest("POST", "http://ex/f", bytes.NewReader([]byte(fmt.Sprintf("locked-%d", i)))))
+					statuses = append(statuses, rr.Code)
+					if rr.Code == 202 {
+						acked++
+					}
+				}
+				if locked {
+					_, _ = raw.Exec("ROLLBACK;")
+				}
+				_ = raw.Close()
+				// what is in the file, read through a fresh handle (as after a restart)
+				_ = st.(interface{ Close() error }).Close()
+				stored := -1
+				if st2, err := queue.NewSQLiteStore(path); err == nil {
+					if envs, err := st2.VerifSnapshot(); err == nil {
+						stored = len(envs)
+					}
+					_ = st2.Close()
+				}
+				preAck := 0
+				if pre.Code == 202 {
+					preAck = 1
+				}
+				emit(map[string]interface{}{"k": "cx", "scenario": "foreign-lock", "backend": backend, "maxDepth": depth, "locked": locked, "targets": 2,
+					"ackedBefore": preAck, "ackedUnderLock": acked, "statuses": statuses, "stored": stored})
+				done()
+			}
+		}
+
+		// ---- (2c) an upload that dies half way: a real TCP connection announces N bytes (or opens a chunked body), sends a part
+		// and closes its sending side. Nobody sent that part as a message: whatever the answer, nothing may be stored (C01 "a
+		// half-written message", C07 "byte-identical to the request body").
+		{
+			name := fmt.Sprintf("cx-au-%d.db", round)
+			st, done := newStore(backend, name, func() (queue.Store, error) {
+				if backend == "memory" {
+					return queue.NewMemoryStore(), nil
+				}
+				return queue.NewSQLiteStore(filepath.Join(dir, name))
+			})
+			if st != nil {
+				compiled, err := compileText("pull_api {\n  auth token raw:t\n}\n/u {\n  max_body 4096\n  pull { path /pull/u }\n}\n")
+				if err != nil {
+					return err
+				}
+				rt, err := app.VerifNewRuntime(compiled, nil)
+				if err != nil {
+					return err
+				}
+				ts := httptest.NewServer(rt.IngressServer(st))
+				full := []byte(fmt.Sprintf("{\"event\":\"invoice.paid\",\"round\":%d,\"pad\":\"%s\"}", round, strings.Repeat("p", r.intn(200))))
+				sent := 1 + r.intn(len(full)-1)
+				chunked := round%3 == 2
+				status := 0
+				if conn, err := net.Dial("tcp", ts.Listener.Addr().String()); err == nil {
+					if chunked {
+						fmt.Fprintf(conn, "POST /u HTTP/1.1\r\nHost: ex\r\nTransfer-Encoding: chunked\r\nContent-Type: application/json\r\n\r\n%x\r\n", len(full))
+					} else {
+						fmt.Fprintf(conn, "POST /u HTTP/1.1\r\nHost: ex\r\nContent-Length: %d\r\nContent-Type: application/json\r\n\r\n", len(full))
+					}
+					conn.Write(full[:sent])
+					if tc, ok := conn.(*net.TCPConn); ok {
+						tc.CloseWrite()
+					}
+					conn.SetReadDeadline(time.Now().Add(2 * time.Second))
+					if resp, err := http.ReadResponse(bufio.NewReader(conn), nil); err == nil {
+						status = resp.StatusCode
+						resp.Body.Close()
+					}
+					conn.Close()
+				}
+				// a complete request afterwards (the server must still work, and its message is the only one)
+				okStatus := 0
+				if resp, err := http.Post(ts.URL+"/u", "application/json", bytes.NewReader(full)); err == nil {
+					okStatus = resp.StatusCode
+					resp.Body.Close()
+				}
+				ts.Close()
+				var payloads []string
+				if l, err := st.ListMessages(queue.MessageListRequest{Limit: 100, IncludePayload: true}); err == nil {
+					for _, it := range l.Items {
+						payloads = append(payloads, hex.EncodeToString(it.Payload))
+					}
+				}
+				sort.Strings(payloads)
+				emit(map[string]interface{}{"k": "cx", "scenario": "aborted-upload", "backend": backend, "chunked": chunked, "declared": len(full), "sent": sent,
+					"status": status, "completeStatus": okStatus, "full": hex.EncodeToString(full), "stored": payloads})
+				done()
+			}
+		}
+
+		// ---- (2d) a fan-out refused part-way, then other traffic (memory and SQLite): the copy stored for the earlier target keeps
+		// the bytes that were sent for it, whatever is received afterwards (C07; C02 "no operation alters payload"; C12 keeps it)
+		{
+			name := fmt.Sprintf("cx-pf-%d.db", round)
+			d := 3
+			st, done := newStore(backend, name, func() (queue.Store, error) {
+				if backend == "memory" {
+					return queue.NewMemoryStore(queue.WithQueueLimits(d, "reject")), nil
+				}
+				return queue.NewSQLiteStore(filepath.Join(dir, name), queue.WithSQLiteQueueLimits(d, "reject"))
+			})
+			if st != nil {
+				compiled, err := compileText("pull_api {\n  auth token raw:t\n}\n/two {\n  deliver \"http://127.0.0.1:9/a\" { timeout 1s }\n  deliver \"http://127.0.0.1:9/b\" { timeout 1s }\n}\n/one {\n  pull { path /pull/one }\n}\n")
+				if err != nil {
+					return err
+				}
+				rt, err := app.VerifNewRuntime(compiled, nil)
+				if err != nil {
+					return err
+				}
+				srv := rt.IngressServer(st)
+				width := 24 + r.intn(40)
+				body := func(tag string) []byte {
+					b := []byte(fmt.Sprintf("%s-%d-", tag, round))
+					for len(b) < width {
+						b = append(b, byte('a'+len(b)%26))
+					}
+					return b
+				}
+				type sentReq struct {
+					Path   string `json:"path"`
+					Body   string `json:"body"`
+					Status int    `json:"status"`
+				}
+				var reqs []sentReq
+				firstSeen := map[string]string{}
+				post := func(path string, b []byte) {
+					rr := httptest.NewRecorder()
+					srv.ServeHTTP(rr, httptest.NewRequest("POST", "http://ex"+path, bytes.NewReader(b)))
+					reqs = append(reqs, sentReq{path, hex.EncodeToString(b), rr.Code})
+					if l, err := st.ListMessages(queue.MessageListRequest{Limit: 100, IncludePayload: true}); err == nil {
+						for _, it := range l.Items {
+							if _, ok := firstSeen[it.ID]; !ok {
+								firstSeen[it.ID] = hex.EncodeToString(it.Payload)
+							}
+						}
+					}
+				}
+				post("/two", body("full-a")) // 2 of 3
+				post("/two", body("part-b")) // third slot: first target stored, second refused
+				post("/one", body("late-c")) // refused (full) — but received
+				post("/two", body("late-d")) // refused before anything is stored
+				// a consumer takes one away, then more traffic is accepted
+				if dq, err := st.Dequeue(queue.DequeueRequest{Batch: 1}); err == nil && len(dq.Items) == 1 {
+					_ = st.Ack(dq.Items[0].LeaseID)
+				}
+				post("/one", body("more-e"))
+				post("/one", body("more-f"))
+				changed := []map[string]string{}
+				if l, err := st.ListMessages(queue.MessageListRequest{Limit: 100, IncludePayload: true}); err == nil {
+					for _, it := range l.Items {
+						if was, ok := firstSeen[it.ID]; ok && was != hex.EncodeToString(it.Payload) {
+							changed = append(changed, map[string]string{"id": it.ID, "was": was, "now": hex.EncodeToString(it.Payload)})
+						}
+					}
+				}
+				sentBodies := []string{}
+				for _, q := range reqs {
+					sentBodies = append(sentBodies, q.Body)
+				}
+				first := []string{}
+				for _, v := range firstSeen {
+					first = append(first, v)
+				}
+				sort.Strings(first)
+				emit(map[string]interface{}{"k": "cx", "scenario": "partial-fanout-payload", "backend": backend, "requests": reqs, "sentBodies": sentBodies,
+					"storedWhenFirstSeen": first, "changed": changed})
+				done()
+			}
 		}
 
 		// ---- (3) one bucket, k goroutines asking at once (refill negligible: 1 token per 10000 s)
